@@ -6,12 +6,19 @@
    at the end of a line loads as exactly the meaning of the lines present (time table = accepted time stamps of those
    lines, every bit-vector variable = its recorded changes there) and as a prefix of the complete load. For the
    multi-threaded loader the same follows through read_values_mt_equals_st (C03) for bodies in its class.
-   NOT proved: cuts inside a token (the at most one extra event of prefix_events can be a damaged value: known finding
-   class CutInsideChange), real / string variables, the multi-threaded path; decided by the fault enumeration over every
-   cut offset (MANIFEST level_note). *)
+   truncated_any_cut is the general clause: for a cut at ANY byte, whenever the truncated body loads, its time table is
+   the table of the common events plus at most one entry (so the table without its last entry is a prefix of the complete
+   table: table_without_last), both reports extend the report of the common events, everything the truncated file adds
+   lies at its last time and everything the complete file adds lies at or after it (so the changes before the last time
+   are the same: changes_before_last).  Its parser half is prefix_events_time (Proofs/CutProofs.v): the token flushed at
+   the end of the truncated input is a prefix of the complete input's next token - a time stamp cut inside its digits
+   denotes a time not larger than the complete one.
+   NOT proved: that the load of a body cut inside a token never panics - it does (known finding class CutInsideChange,
+   D9); the multi-threaded path at arbitrary cuts; decided by the fault enumeration over every cut offset.
+   truncated_any_cut_rs is truncated_any_cut for real-valued and string-valued variables. *)
 From WV Require Import Model.Base Model.Bits Model.WaveMem Model.VcdBody Spec.TimeSpec Spec.StoreSpec
   Proofs.StoreProofs Proofs.EncoderProofs Proofs.BodyProofs Proofs.VcdStreamProofs Proofs.PrefixProofs
-  Proofs.TimeTableProofs Proofs.TokenProofs Proofs.TilingProofs Proofs.MtProofs Proofs.TruncProofs.
+  Proofs.TimeTableProofs Proofs.TokenProofs Proofs.CutProofs Proofs.TilingProofs Proofs.MtProofs Proofs.RealStringEnc Proofs.TruncProofs Proofs.TruncRsProofs.
 From Coq Require Import List. Import ListNotations.
 Open Scope N_scope.
 
@@ -100,7 +107,77 @@ Check truncated_at_line_end :
 
 Check body_app : forall A B, body (A ++ B) = body A ++ bytes_of B.
 
+
+(* a cut at ANY byte: whenever the truncated body loads, table and report are those of the common events plus at most one
+   table entry and changes at the last time only *)
+Check truncated_any_cut :
+  forall (parse_f64 : list byte -> option (list byte)) (lz_compress : list byte -> list byte)
+         (lz_decompress : list byte -> nat -> option (list byte)),
+  (forall d n, (length d <= n)%nat -> lz_decompress (lz_compress d) n = Some d) ->
+  forall cap, 1 <= cap -> cap <= 65536 ->
+  forall debug tpes lookup (a b : list byte) stop id bits e1 e2 b1 t1 b2 t2,
+  (1 <= bits)%nat -> nth_error tpes id = Some (EncBits bits) ->
+  read_single_stream parse_f64 lz_compress cap debug tpes lookup a stop true = Ok e1 ->
+  read_single_stream parse_f64 lz_compress cap debug tpes lookup (a ++ b) stop true = Ok e2 ->
+  enc_finish lz_compress e1 = Ok (b1, t1) -> enc_finish lz_compress e2 = Ok (b2, t2) ->
+  N.of_nat (length t1) < 4294967296 -> N.of_nat (length t2) < 4294967296 ->
+  (forall x ops, (x = a \/ x = a ++ b) -> ops_of lookup true false (fst (parse_body debug x stop)) = Some ops ->
+               N.of_nat (count_vcd id ops) * (10 + N.of_nat bits) < 4294967264) ->
+  exists T0 L0 s1 s2 extra rest2,
+    is_prefix T0 t1 /\ is_prefix T0 t2 /\ (length t1 <= length T0 + 1)%nat /\
+    load_signal lz_decompress b1 id (EncBits bits) = Ok s1 /\ observe_signal s1 = Ok (L0 ++ extra) /\
+    load_signal lz_decompress b2 id (EncBits bits) = Ok s2 /\ observe_signal s2 = Ok (L0 ++ rest2) /\
+    Forall (fun x : N * value_kind * list byte => fst (fst x) = N.of_nat (length t1) - 1) extra /\
+    Forall (fun x : N * value_kind * list byte => N.of_nat (length t1) - 1 <= fst (fst x)) rest2.
+
+
+(* the same for real-valued and string-valued variables *)
+Check truncated_any_cut_rs :
+  forall (parse_f64 : list byte -> option (list byte)),
+  (forall r le, parse_f64 r = Some le -> length le = 8%nat) ->
+  forall (lz_compress : list byte -> list byte) (lz_decompress : list byte -> nat -> option (list byte)),
+  (forall d n, (length d <= n)%nat -> lz_decompress (lz_compress d) n = Some d) ->
+  forall cap, 1 <= cap -> cap <= 65536 ->
+  forall debug tpes lookup (a b : list byte) stop id str e1 e2 b1 t1 b2 t2,
+  nth_error tpes id = Some (rs_tpe str) ->
+  read_single_stream parse_f64 lz_compress cap debug tpes lookup a stop true = Ok e1 ->
+  read_single_stream parse_f64 lz_compress cap debug tpes lookup (a ++ b) stop true = Ok e2 ->
+  enc_finish lz_compress e1 = Ok (b1, t1) -> enc_finish lz_compress e2 = Ok (b2, t2) ->
+  N.of_nat (length t1) < 4294967296 -> N.of_nat (length t2) < 4294967296 ->
+  (forall x ops, (x = a \/ x = a ++ b) -> ops_of lookup true false (fst (parse_body debug x stop)) = Some ops ->
+               Forall (rs_op_ok id str) ops /\ ops_cost id ops < 4294967264) ->
+  exists T0 L0 s1 s2 extra rest2,
+    is_prefix T0 t1 /\ is_prefix T0 t2 /\ (length t1 <= length T0 + 1)%nat /\
+    load_signal lz_decompress b1 id (rs_tpe str) = Ok s1 /\ observe_signal s1 = Ok (L0 ++ extra) /\
+    load_signal lz_decompress b2 id (rs_tpe str) = Ok s2 /\ observe_signal s2 = Ok (L0 ++ rest2) /\
+    Forall (fun x : N * value_kind * list byte => fst (fst x) = N.of_nat (length t1) - 1) extra /\
+    Forall (fun x : N * value_kind * list byte => N.of_nat (length t1) - 1 <= fst (fst x)) rest2.
+
+(* ... hence the entries before the truncated file's last time are the same in both reports *)
+Check changes_before_last :
+  forall k L0 extra rest2,
+  Forall (fun x : N * value_kind * list byte => fst (fst x) = k) extra ->
+  Forall (fun x : N * value_kind * list byte => k <= fst (fst x)) rest2 ->
+  before k (L0 ++ extra) = before k (L0 ++ rest2).
+Check (eq_refl : before = fun k l => filter (fun x => fst (fst x) <? k) l).
+
+(* the parser half: a flushed time stamp is a prefix of the complete file's next token *)
+Check prefix_events_time :
+  forall debug stop_pos (a b : list byte),
+  exists common tail rest,
+    fst (parse_body debug a stop_pos) = common ++ tail /\ fst (parse_body debug (a ++ b) stop_pos) = common ++ rest /\
+    (length tail <= 1)%nat /\
+    (forall v, tail = [EvTime v] -> rest = [] \/ exists v' r, rest = EvTime v' :: r /\ v <= v').
+
+Check @table_without_last :
+  forall A (T0 t1 t2 : list A), is_prefix T0 t1 -> (length t1 <= length T0 + 1)%nat -> is_prefix T0 t2 -> is_prefix (removelast t1) t2.
+
 Print Assumptions prefix_events.
+Print Assumptions truncated_any_cut.
+Print Assumptions truncated_any_cut_rs.
+Print Assumptions changes_before_last.
+Print Assumptions prefix_events_time.
+Print Assumptions table_without_last.
 Print Assumptions truncated_at_line_end.
 Print Assumptions body_app.
 Print Assumptions prefix_history_prefix_report.
